@@ -8,7 +8,7 @@
                                                   (length checks, signature, simple_dns parse — in this order)
      iroh-dns-server/src/util.rs:102-152          signed_packet_to_hickory_records_without_origin
      iroh-dns-server/src/util.rs:154-170          record_set_append_origin
-     hickory-proto rr_set.rs RecordSet::insert    (same rdata: replace; CNAME/ANAME: single record)
+     hickory-proto rr_set.rs RecordSet::insert    (same rdata: first one kept, ttl included; CNAME/ANAME: last one only)
      iroh-dns-server/src/dns/node_zone_handler.rs:66-96,113-186   resolve_pkarr, lookup, search
      iroh-dns-server/src/dns/node_zone_handler.rs:197-224         parse_name_as_pkarr_with_origin
      iroh-dns-server/src/store.rs                 ZoneStore::{insert, get_signed_packet, resolve},
@@ -77,7 +77,7 @@ Fixpoint replace_rdata (l : list (N * bytes)) (ttl : N) (rd : bytes) : option (l
   match l with
   | [] => None
   | (t, d) :: r =>
-      if bytes_eqb d rd then Some ((ttl, rd) :: r)   (* identical record: unchanged; else push + swap_remove = replace in place *)
+      if bytes_eqb d rd then Some ((t, d) :: r)   (* hickory Record equality ignores the ttl: "identical", set unchanged *)
       else match replace_rdata r ttl rd with
            | Some r' => Some ((t, d) :: r')
            | None => None
@@ -178,11 +178,13 @@ Fixpoint parse_name (O : oracles) (origins : list name) (n : name) : option (nam
 
 Definition RC_NOERROR := 0.  Definition RC_NXDOMAIN := 3.  Definition RC_REFUSED := 5.
 Definition RC_ANY := 99.      (* model does not predict the response code (static zone / no zone) *)
+Definition RC_SUBSET := 98.   (* ... nor which of the listed records hickory's in-memory zone picks (type ANY) *)
+Definition T_ANY := 255.
 
 (* exact (name, type) match in the static zone (SOA and apex records of the origins) *)
 Definition static_lookup (static : list rr) (n : name) (t : N) : list rr :=
   map (fun r => mkRR (lower_name (rname r)) (rtype r) (rttl r) (rdata r))
-      (filter (fun r => name_eqb_ci (rname r) n && (rtype r =? t)) static).
+      (filter (fun r => name_eqb_ci (rname r) n && ((rtype r =? t) || (t =? T_ANY))) static).
 
 Definition in_catalog (origins : list name) (n : name) : bool :=
   existsb (fun o => is_suffix_ci o n) origins.
@@ -194,11 +196,12 @@ Definition query (O : oracles) (origins : list name) (static : list rr)
   if negb (in_catalog origins n) then (s, (RC_REFUSED, []))
   else if t =? T_SOA then
     (s, (RC_ANY, static_lookup static (match origins with o :: _ => o | [] => [] end) T_SOA))
-  else if t =? T_AXFR then (s, (RC_REFUSED, []))
+  else if t =? T_AXFR then (s, (RC_ANY, []))   (* search() refuses; hickory's catalog turns the zone transfer
+                                                  into an empty response over DoH: code not modelled *)
   else if t =? T_NS then (s, (RC_ANY, static_lookup static n t))
   else
     match parse_name O origins n with
-    | None => (s, (RC_ANY, static_lookup static n t))
+    | None => (s, (if t =? T_ANY then RC_SUBSET else RC_ANY, static_lookup static n t))
     | Some (rest, k, o) =>
         match resolve O s k rest t with
         | (s', Ok (Some (setname, recs))) =>
@@ -327,7 +330,9 @@ Definition obs_eqb (m o : obs) : bool :=
   | OPut x, OPut y => x =? y
   | OGetPk x, OGetPk y => opt_eqb triple_eqb x y
   | OCode x, OCode y => x =? y
-  | OAns rc a, OAns rc' a' => ((rc =? RC_ANY) || (rc =? rc')) && list_eqb rr_eqb a a'
+  | OAns rc a, OAns rc' a' =>
+      if rc =? RC_SUBSET then forallb (fun r => existsb (rr_eqb r) a) a'
+      else ((rc =? RC_ANY) || (rc =? rc')) && list_eqb rr_eqb a a'
   | _, _ => false
   end.
 
